@@ -236,7 +236,7 @@ func composite(t *rapid.T, depth int, jsonOnly bool, params []tparam) ty {
 				}
 			}
 			if l == "nil" {
-				if strings.HasPrefix(e.kind, "interface") {
+				if strings.HasPrefix(e.kind, "interface") || e.kind == "fp.Either" {
 					// Some(nil interface) is not recoverable by type assertion from AsMap: not demanded
 					return "option.None[" + e.expr + "]()"
 				}
@@ -361,6 +361,18 @@ func drawStruct(t *rapid.T, idx int, exclFragile map[string]bool, forceJson bool
 	s.json = forceJson || rapid.IntRange(0, 3).Draw(t, "json") == 0
 	s.jsonTag = !s.json && rapid.IntRange(0, 5).Draw(t, "jsontag") == 0
 	s.labelled = rapid.IntRange(0, 2).Draw(t, "labelled") == 0
+	if !forceJson && rapid.IntRange(0, 4).Draw(t, "explicitFamily") == 0 {
+		// the explicit annotation family instead of @fp.Value
+		s.value, s.json, s.jsonTag, s.labelled = false, false, false, false
+		s.getter = rapid.Bool().Draw(t, "@Getter")
+		s.with = rapid.Bool().Draw(t, "@With")
+		s.builder = rapid.Bool().Draw(t, "@Builder")
+		s.str = rapid.Bool().Draw(t, "@String")
+		s.allArgs = rapid.Bool().Draw(t, "@AllArgs")
+		if !s.getter && !s.with && !s.builder && !s.str && !s.allArgs {
+			s.getter = true
+		}
+	}
 	s.docOnSpec = rapid.IntRange(0, 3).Draw(t, "docOnSpec") == 0
 	nf := rapid.SampledFrom([]int{1, 2, 3, 3, 4, 5, 6, 8, 12, 21, 22, 25}).Draw(t, "nfields")
 	if s.json && nf > 8 {
@@ -719,6 +731,20 @@ func (p pkgSpec) cases(maxProduct int) string {
 		}
 		sb.WriteString("\t\t},\n")
 		fmt.Fprintf(&sb, "\t\tNewPtr: func() any { return new(%s) },\n", s.instExpr())
+		if s.allArgs {
+			ctor := "New" + s.name
+			if len(s.params) > 0 {
+				var ps []string
+				for _, tp := range s.params {
+					ps = append(ps, tp.inst.expr)
+				}
+				ctor += "[" + strings.Join(ps, ", ") + "]"
+			}
+			fmt.Fprintf(&sb, "\t\tCtor: %s,\n", ctor)
+		}
+		if s.str {
+			sb.WriteString("\t\tStr: true,\n")
+		}
 		if s.json {
 			fmt.Fprintf(&sb, "\t\tTwin: twinOf%s,\n\t\tDecode: []string{", s.name)
 			for _, d := range s.decode {
